@@ -1,6 +1,7 @@
 package props
 
 import (
+	"bytes"
 	"context"
 	"fmt"
 	"math/rand"
@@ -37,6 +38,7 @@ type c05Params struct {
 	Swap      bool       `json:"swap"`               // list the branches in reverse order
 	Identity  string     `json:"identity,omitempty"` // "", "X-base", "X-X"
 	Forced    []forcedOp `json:"forced,omitempty"`   // operations applied first, in this order
+	Damage    int        `json:"damage,omitempty"`   // cli: 1 = a block index, 2 = a block, 3 = the table index of the other branch's table is removed from the store before the merge
 	NoFF      string     `json:"no_ff,omitempty"`    // cli + X-base: the unchanged branch stays at the base commit and fast-forward is disabled by "flag" or "config"
 }
 
@@ -225,9 +227,7 @@ func genMergeTuple(rng *rand.Rand, p *c05Params) (*model.Tbl, []*model.Tbl, [][]
 			}
 			log(i, "colremove %s", c)
 		case "reorder":
-			if keyless {
-				continue
-			}
+			// keyless tables too: wrgl refuses such a merge (accepted), silently losing rows is not
 			perm := rng.Perm(len(b.Cols))
 			nc := make([]string, len(b.Cols))
 			for j, pj := range perm {
@@ -822,6 +822,70 @@ func runMergeCLI(o *fw.Obs, env *fw.Env, id string, base *model.Tbl, branches []
 			return nil, fmt.Sprintf("config: %v %s %s", err, pn, out)
 		}
 	}
+	var headBefore []byte
+	if p.Damage != 0 {
+		// an object the merge has to read is gone: the command must fail (or, when it never needed the object, be right)
+		rd, err := mon.OpenRepo(wd)
+		if err != nil {
+			return nil, err.Error()
+		}
+		odb, err := rd.OpenObjectsStore()
+		if err != nil {
+			rd.Close()
+			return nil, err.Error()
+		}
+		rs := rd.OpenRefStore()
+		headBefore, _ = rs.Get("heads/b0")
+		done := false
+		if h, err := rs.Get("heads/b1"); err == nil {
+			if com, err := objects.GetCommit(odb, h); err == nil {
+				if tbl, err := objects.GetTable(odb, com.Table); err == nil && len(tbl.Blocks) > 0 {
+					k := int(h[0]) % len(tbl.Blocks)
+					switch p.Damage {
+					case 1:
+						done = objects.DeleteBlockIndex(odb, tbl.BlockIndices[k]) == nil
+					case 2:
+						done = objects.DeleteBlock(odb, tbl.Blocks[k]) == nil
+					default:
+						done = objects.DeleteTableIndex(odb, com.Table) == nil
+					}
+				}
+			}
+		}
+		odb.Close()
+		rd.Close()
+		if !done {
+			return nil, "nothing to damage"
+		}
+		o.Ev("cli_merges_on_damaged_store", 1)
+	}
+	// refused reports whether a failed merge is an acceptable outcome of this case; a refusal must leave the branch alone
+	refused := func(err error) bool {
+		if err == nil {
+			return false
+		}
+		if p.Damage != 0 {
+			if rd, e := mon.OpenRepo(wd); e == nil {
+				rs := rd.OpenRefStore()
+				h, _ := rs.Get("heads/b0")
+				rd.Close()
+				if !bytes.Equal(h, headBefore) {
+					o.Violate("branch-moved-by-failed-merge/wrgl-merge/"+class, "merge failed with %v, heads/b0 %x -> %x", err, headBefore, h)
+				}
+			}
+			o.Ev("cli_damaged_store_refused", 1)
+			return true
+		}
+		if len(base.PK) == 0 && strings.Contains(err.Error(), "tables without a primary key must have the same columns") {
+			for _, b := range branches {
+				if strings.Join(b.Cols, "\x00") != strings.Join(base.Cols, "\x00") {
+					o.Ev("keyless_column_change_refused", 1)
+					return true
+				}
+			}
+		}
+		return false
+	}
 	cwd, _ := os.Getwd()
 	for _, pat := range []string{"CONFLICTS_*.csv", "MERGE_*.csv"} {
 		ms, _ := filepath.Glob(filepath.Join(cwd, pat))
@@ -834,12 +898,15 @@ func runMergeCLI(o *fw.Obs, env *fw.Env, id string, base *model.Tbl, branches []
 		args = append(args, fmt.Sprintf("b%d", i))
 	}
 	out := &mergeOutcome{conflicts: map[string][]string{}}
-	if len(exp.MustConf) > 0 || len(exp.MayConf) > 0 {
+	if (len(exp.MustConf) > 0 || len(exp.MayConf) > 0) && p.Damage == 0 {
 		// conflicts possible: non-interactive conflict listing; judged on the listed keys only
 		args = append(args, "--no-gui", "--no-progress")
 		stdout, err, pn := mon.Wrgl(wd, nil, args...)
 		if pn != "" {
 			o.Violate("panic/wrgl-merge/"+class, "%s", pn)
+			return nil, ""
+		}
+		if refused(err) {
 			return nil, ""
 		}
 		if err != nil {
@@ -912,15 +979,30 @@ func runMergeCLI(o *fw.Obs, env *fw.Env, id string, base *model.Tbl, branches []
 	if p.NoFF != "" {
 		o.Ev("cli_no_ff_merges", 1)
 	}
-	stdout, err, pn := mon.Wrgl(wd, nil, args...)
+	var stdout, pn string
+	if p.Damage != 0 {
+		// the real binary: a failing merge leaves goroutines behind that must not take the harness with them
+		r := runWrglProc(env, root, nil, args...)
+		stdout = r.out
+		if r.exit != 0 {
+			err = fmt.Errorf("wrgl merge: exit %d: %s", r.exit, lastLines(r.out, 3))
+		} else {
+			err = nil
+		}
+	} else {
+		stdout, err, pn = mon.Wrgl(wd, nil, args...)
+	}
 	if pn != "" {
 		o.Violate("panic/wrgl-merge/"+class, "%s", pn)
 		return nil, ""
 	}
-	if err != nil && strings.Contains(err.Error(), "/dev/tty") {
+	if err != nil && p.Damage == 0 && strings.Contains(err.Error(), "/dev/tty") {
 		// wrgl found a conflict the model does not require and wants its terminal UI:
 		// the tuple is judged at package level instead (see DESIGN C05)
 		return nil, "FALLBACK"
+	}
+	if refused(err) {
+		return nil, ""
 	}
 	if err != nil {
 		o.Violate("merge-error/wrgl-merge/"+class, "%v %s", err, stdout)
@@ -1052,6 +1134,14 @@ func init() {
 					l.Add("cli", c05Params{NCols: 3 + (i+rep)%3, Branches: 2, Intensity: rep % 2, Rows: 4 + rep%30, Output: "cli", PK: []int{0}, Ops: []string{"edit", "add"}, Forced: f}, 0)
 				}
 			}
+			// an object of the other branch's table is missing from the store: the merge fails, it does not commit a table with rows dropped
+			for i := 0; i < l.N(12, 240); i++ {
+				l.Add("cli", c05Params{NCols: 2 + i%3, Branches: 2, Intensity: 1 + i%3, Rows: 3 + i*11%50, Output: "cli", PK: []int{0}, Ops: []string{"edit", "add", "remove"}, Damage: 1 + i%3}, 0)
+			}
+			// keyless tables, one branch with the columns in another order
+			for i := 0; i < l.N(8, 160); i++ {
+				l.Add([]string{"tuple", "cli"}[i%2], c05Params{NCols: 2 + i%3, Branches: 2, Intensity: 1 + i%2, Rows: 3 + i*7%40, Output: []string{"rows", "cli", "blocks", "cli"}[i%4], Ops: []string{"add"}, Forced: []forcedOp{{i / 2 % 2, "reorder"}}, Swap: i%3 == 0}, 0)
+			}
 			return l.Cases
 		},
 		Run: c05Run,
@@ -1062,4 +1152,12 @@ func init() {
 			return c05Class(&p, base, branches)
 		},
 	})
+}
+
+func lastLines(s string, n int) string {
+	ls := strings.Split(strings.TrimRight(s, "\n"), "\n")
+	if len(ls) > n {
+		ls = ls[len(ls)-n:]
+	}
+	return strings.Join(ls, " | ")
 }
